@@ -75,16 +75,27 @@ RULE = (
     "non-trivial = fit precondition observed (every leaf fully visible on the root canvas, no WidgetWarning) and >=1 leaf cell judged"
 )
 ASSUMES = [
-    "fit precondition is established by observation: every leaf rendered exactly at one size, its full glyph rectangle visible on the "
-    "root canvas (leaves below an Overlay's bottom may be partly covered by the top widget but their bounding box must be intact), "
-    "no urwid WidgetWarning; everything else is skipped_precondition, exceptions in the first render are skipped_render_error (C01 domain)",
+    "fit precondition is established by observation of one focused render with the canvas cache cleared: every leaf rendered at exactly one "
+    "size and its full glyph rectangle visible on the root canvas (leaves below an Overlay's bottom may be partly covered by the top widget "
+    "but their bounding box must be intact); no widget's canvas larger than its parent's, stacked/joined children not adding up to more than "
+    "the parent (Pile/ListBox/Frame rows, Columns cols, LineBox borders); no urwid WidgetWarning; rows of the root canvas all equally wide. "
+    "Everything else is skipped_precondition; exceptions in that first render are skipped_render_error (C01/C02 domain)",
     "only cells on which a leaf is drawn are judged (blank fill, dividers, borders, scrollbars are not)",
-    "hit-testing uses non-focus-changing events (press 2/3, release, drag); button-1 presses are judged for delivery only, each on a freshly built tree",
-    "clause 3 is judged only where the whole path root..leaf implements move_cursor_to_coords (no Frame/ListBox/Overlay/Scrollable/ScrollBar on the "
-    "path) and the leaf is selectable and implements the cursor protocol (spy) or is an Edit (always accepts; row judged only where the "
-    "Edit has a cursor position on that row under plain character wrapping)",
-    "real leaves: only their glyph cells are judged; top-left = first glyph cell minus the documented label offset (Button 2, CheckBox 4)",
-    "a non-selectable spy never shows a cursor (urwid containers do not report cursors of non-selectable children)",
+    "Overlay: bottom_w is an inert backdrop by documented design ('Pass event to top_w, ignore if outside of top_w'), so an event on a visible "
+    "bottom-leaf cell that reaches no leaf is not judged (counter c2_overlay_bottom_inert); reaching a *different* leaf would still be a violation",
+    "hit-testing uses non-focus-changing events (press 2/3, release, drag, ctrl press); button-1 presses are judged for delivery only, each on a freshly built tree",
+    "the size argument a leaf receives with a mouse event is not part of the statement: a size different from the rendered one is counted "
+    "(c2_leaf_got_size_other_than_rendered), not judged",
+    "clause 1 is evaluated for every container/decoration of the tree at the size it was observed to be handed (on and off the focus chain; "
+    "separate counters), except where a container below it on its focus chain lacks get_cursor_coords (Scrollable, ScrollBar: outside the quantifier)",
+    "clause 3 is judged at the root only (every subtree is re-rooted and judged as its own case), only where the whole path root..leaf implements "
+    "move_cursor_to_coords (no Frame/ListBox/Overlay/Scrollable/ScrollBar on the path) and the leaf is selectable and implements the cursor "
+    "protocol (spy: acceptance known from its predicate) or is an Edit (acceptance = the Edit's own logged answer; if it was not asked, rows on "
+    "which it has a cursor position under plain character wrapping count as accepted; the cursor row is judged on such rows only)",
+    "real leaves: only their glyph cells are judged; top-left = first glyph cell minus the documented label offset (Button '< ' 2, CheckBox '[ ] ' 4); "
+    "Button/CheckBox narrower than 5 columns count as clipped",
+    "a non-selectable spy never shows or reports a cursor (urwid containers do not report cursors of non-selectable children)",
+    "a fixed spy raises ValueError when handed a non-() size, like urwid's own fixed-only widgets raise WidgetError",
 ]
 
 CELL_CAP = {"quick": 260, "thorough": 500}
